@@ -350,6 +350,17 @@ pub fn run(ctx: &Ctx) {
     let alphabet = [0.0, 1.0, 3.0];
     let plans: Vec<(usize, usize, usize)> = if ctx.tier.thorough() { vec![(2, 1, 6), (2, 2, 4), (3, 1, 4)] } else { vec![(2, 1, 4), (2, 2, 3), (3, 1, 3)] };
     ctx.extra("exhaustive_histories", json!(plans.iter().map(|(c, p, d)| format!("{c} chains x {p} params, all sequences up to length {d} over {{0,1,3}}")).collect::<Vec<_>>()));
+    // tiny-scale and one-ulp alphabets: 'state differs from previous state' must be an exact comparison
+    for (alpha, tag) in [([0.0, 1e-9, 2e-9], "tiny"), ([1.0, 1.0 + 2f64.powi(-23), 1.0 + 2f64.powi(-22)], "ulp"), ([-3e-20, 0.0, 3e-20], "tiny-signed")] {
+        for init_v in [alpha[0], alpha[1]] {
+            let root = new_node(2, 1, &[init_v]);
+            let mut states = vec![];
+            dfs(ctx, &worst, &root, &alpha, ctx.tier.pick(3, 4), 2, 1, "f32", &mut states);
+            ctx.outcome(&format!("histories over the {tag} alphabet"), states.len() as u64);
+            ctx.distinct_bulk(states.iter().cloned());
+            ctx.states_bulk(states);
+        }
+    }
     for (n_chains, n_params, depth) in plans {
         for ty in ["f32", "i32"] {
             for init_v in [0.0, 1.0] {
